@@ -100,8 +100,8 @@ CLAIMS = {
         "DESIGN.md section 6, C13",
     ),
     "C15": (
-        "write-effect enumeration over everything reachable from ServeHTTP against the configuration graph rooted at Transcoder (with a positive control rooted at NewTranscoder), must-pass Reset / deferred Put on pooled objects, who-may-touch the sync.Pools, capacity guard, absence of other cross-request state",
-        "Frame argument for history independence: request-time code writes nothing that outlives the RPC, and the only survivors (pooled buffers, (de)compressors) are reset before use on every path (C15.1-C15.4 plus the shared clauses C03.13, C14.1, C14.4). Level 'other'.",
+        "write-effect enumeration over everything reachable from ServeHTTP against the configuration graph rooted at Transcoder (with a positive control rooted at NewTranscoder), must-pass Reset / deferred Put on pooled objects, who-may-touch the sync.Pools, capacity guard, absence of other cross-request state; commutativity analysis of every request-time loop over a Go map (injective key derivations, idempotent writes, counters, collect-then-sort, existence tests)",
+        "Frame argument for history independence: request-time code writes nothing that outlives the RPC, and the only survivors (pooled buffers, (de)compressors) are reset before use on every path (C15.1-C15.4 plus the shared clauses C03.13, C14.1, C14.4); and that the outcome is a function of the request at all: no request-time loop over a Go map lets the randomised iteration order reach the outcome (C15.5). Level 'other'.",
         "Trusts sync.Pool and Reset contracts. Does not decide capacity-dependent behaviour or state inside dependencies.",
         "DESIGN.md section 6, C15",
     ),
